@@ -1,9 +1,12 @@
 (* Extraction of the executable Model and Spec definitions.  ExtrOcamlBasic only: bool, option, list, prod,
    unit, sumbool, sumor map to OCaml natives; N / positive / nat / string / ascii stay Coq datatypes. *)
 From Coq Require Extraction ExtrOcamlBasic.
-From QV Require Import Model.Base Generated.Tables Model.Quote Spec.SdExtract.
+From QV Require Import Model.Base Generated.Tables Model.Quote Model.Unquote Model.Split Model.PortRange Spec.SdExtract.
 Extraction Language OCaml.
 Extraction "Extract/model.ml"
   s2l
   quote_value quote_words quote_words_pinned
+  unquote_value unquote_value_pinned
+  split_word_all split_word_all_pinned split_strv_all split_strv_all_pinned
+  is_port_range is_port_range_pinned trim trim_end
   fl_exec fl_args fl_strv sd_split.
